@@ -247,16 +247,11 @@ impl GenericsAnalyzer {
             }
             syn::Type::Path(type_path) => {
                 // Type path. Should be defined as a generic parameter.
-                if type_path.qself.is_some() {
-                    return Err(syn::Error::new(type_path.span(), "No self allowed"));
-                }
-                if type_path.path.leading_colon.is_some() {
-                    return Err(syn::Error::new(
-                        type_path.span(),
-                        "No leading colon allowed",
-                    ));
-                }
-                if type_path.path.segments.len() != 1 {
+                // `<X as Tr>::Ty`, `::a::B` and `a::B` do not name a generic parameter
+                if type_path.qself.is_some()
+                    || type_path.path.leading_colon.is_some()
+                    || type_path.path.segments.len() != 1
+                {
                     return self.deps_with_generics(
                         FnDeps::Concrete(Box::new(ty.clone())),
                         &input_sig.generics,
